@@ -15,10 +15,10 @@ Theorem C05_client_stanzas_exactly_once : forall items inb nw wf,
   filter is_stanza (routed (crecv inb nw wf items)) = filter is_stanza (processed nw wf items).
 Proof. exact crecv_stanzas_once. Qed.
 
-(* ... and nothing else is lost or invented: every processed element is routed
-   once (a stream error twice: once synchronously, once by the ordinary path). *)
+(* ... and nothing else is lost or invented: every processed element, stanza or not
+   (a stream error included), is handed to the router exactly once. *)
 Theorem C05_client_routed_all : forall items inb nw wf,
-  routed (crecv inb nw wf items) = expand (processed nw wf items).
+  routed (crecv inb nw wf items) = processed nw wf items.
 Proof. exact crecv_routed. Qed.
 
 (* every acknowledgement request processed is answered, in order *)
@@ -35,7 +35,7 @@ Qed.
 
 (* Component: same, synchronously and therefore in arrival order. *)
 Theorem C05_component_in_order : forall items,
-  routed (precv items) = expand (pprocessed items) /\ all_sync (precv items) = true.
+  routed (precv items) = pprocessed items /\ all_sync (precv items) = true.
 Proof. intros items. split; [apply precv_routed|apply precv_sync]. Qed.
 
 (* nothing completely received before a loss is dropped: when the history has no
